@@ -155,6 +155,7 @@ type rec struct {
 	size    int
 	gateKnd int  // 0 none, 1 LogValuer, 2 Marshaler/Stringer
 	park    bool // formatting parks
+	bigMsg  bool // the size goes into the message instead of the attributes
 }
 
 type hdl struct {
@@ -175,14 +176,28 @@ type scenario struct {
 
 func pad(n int) string { return strings.Repeat("p", n) }
 
+func (r *rec) msg() string {
+	if r.bigMsg {
+		return lg.Msg(r.id) + "-" + pad(r.size)
+	}
+	return lg.Msg(r.id)
+}
+
 func (r *rec) attrs(g *gate) []slog.Attr {
 	h := r.size / 2
+	if r.bigMsg {
+		h = 2
+	}
 	as := []slog.Attr{slog.String("a", pad(h))}
 	switch r.gateKnd {
 	case 1:
 		as = append(as, slog.Any("gate", gateLV{g, r.id}))
 	case 2:
 		as = append(as, slog.Any("gate", gateAny{g, r.id}))
+	}
+	if r.bigMsg {
+		as = append(as, slog.String("b", pad(3)), slog.Int("n", r.id))
+		return as
 	}
 	as = append(as, slog.String("b", pad(r.size-h)), slog.Int("n", r.id))
 	return as
@@ -198,9 +213,9 @@ func (r *rec) emit(h logger.Handler, g *gate) (err error) {
 	ctx := context.Background()
 	switch r.via {
 	case 0:
-		return h.Handle(ctx, lg.NewRecord(r.level, lg.Msg(r.id), r.attrs(g)...))
+		return h.Handle(ctx, lg.NewRecord(r.level, r.msg(), r.attrs(g)...))
 	case 1:
-		logger.New(h).LogAttrs(ctx, r.level, lg.Msg(r.id), r.attrs(g)...)
+		logger.New(h).LogAttrs(ctx, r.level, r.msg(), r.attrs(g)...)
 	case 2:
 		logger.New(h).Logf(ctx, r.level, "LOG%dEND %v %s", r.id, gateAny{g, r.id}, pad(r.size))
 	default:
@@ -211,13 +226,13 @@ func (r *rec) emit(h logger.Handler, g *gate) (err error) {
 		l := logger.New(h)
 		switch r.level {
 		case logger.LevelDebug:
-			l.Debug(lg.Msg(r.id), args...)
+			l.Debug(r.msg(), args...)
 		case logger.LevelInfo:
-			l.Info(lg.Msg(r.id), args...)
+			l.Info(r.msg(), args...)
 		case logger.LevelWarn:
-			l.Warn(lg.Msg(r.id), args...)
+			l.Warn(r.msg(), args...)
 		default:
-			l.Error(lg.Msg(r.id), args...)
+			l.Error(r.msg(), args...)
 		}
 	}
 	return nil
@@ -269,6 +284,9 @@ func (sc *scenario) describe() string {
 			sb.WriteByte(',')
 		}
 		fmt.Fprintf(&sb, "#%d@g%d:h%d:lvl%d:via%d:%dB", r.id, r.thread, r.hidx, r.level, r.via, r.size)
+		if r.bigMsg {
+			sb.WriteString(":msg")
+		}
 		if r.park {
 			sb.WriteString(":park")
 		}
@@ -589,7 +607,8 @@ func run(e *hk.Env) error {
 	nextID := 0
 	newRec := func(sc *scenario, t, hidx int, level slog.Level, via, size, gk int, park bool) {
 		nextID++
-		sc.recs = append(sc.recs, rec{id: nextID, thread: t, level: level, enabled: level >= sc.threshold, via: via, hidx: hidx, size: size, gateKnd: gk, park: park})
+		sc.recs = append(sc.recs, rec{id: nextID, thread: t, level: level, enabled: level >= sc.threshold, via: via, hidx: hidx, size: size, gateKnd: gk, park: park,
+			bigMsg: !park && r.Chance(25)})
 	}
 	scen, bad, writes, recsTotal, disabledTotal := 0, 0, 0, 0, 0
 	hist := map[string]int{}
